@@ -131,18 +131,50 @@ def run(c):
         ("longUrl", "GET", "/" + "u" * 7000 + "?q=" + "v" * 7000, [["Host", "h"]]),
         ("longUrl", "GET", "/" + "%C3%A9" * 2000, [["Host", "h"]]),
         ("plain", "GET", "/ok", [["Host", "h"]]),
+        # every form of request target RFC 9112 allows (a valid request whose target has no path at all included)
+        ("connectRefusedByHost", "CONNECT", "169.254.169.254:80", [["Host", "169.254.169.254:80"]]),     # host answers 405
+        ("connectAcceptedByHost", "CONNECT", "169.254.169.254:80", [["Host", "169.254.169.254:80"]]),    # host answers 200
+        ("targetForms", "OPTIONS", "*", [["Host", "h"]]),
+        ("targetForms", "GET", "http://168.63.129.16/machine?comp=goalstate", [["Host", "168.63.129.16"]]),
+        ("targetForms", "PUT", "http://168.63.129.16/vmAgentLog", [["Host", "168.63.129.16"]]),
     ]
     for cl, method, target, hs in reqs:
         k += 1
         tag = "rq%d" % k
         steps.append({"op": "mark", "tag": "begin:" + tag})
         steps.append({"op": "connect", "conn": tag, "attr": {"uid": 0, "admin": 1, "dip": "168.63.129.16", "dport": 80}})
-        steps.append({"op": "request", "conn": tag, "id": tag, "method": method, "target": target, "headers": hs,
-                      "body": {"len": 5 if method == "POST" else 0, "seed": 1}, "timeout_ms": 5000})
+        rq = {"op": "request", "conn": tag, "id": tag, "method": method, "target": target, "headers": hs,
+              "body": {"len": 5 if method == "POST" else 0, "seed": 1}, "timeout_ms": 5000}
+        if cl == "connectRefusedByHost":
+            rq["resp"] = {"status": 405, "headers": [["allow", "GET, POST, PUT"]], "body": {"text": "no tunnels"}, "framing": "cl"}
+        steps.append(rq)
         steps.append({"op": "close", "conn": tag})
         steps += probe(tag)
         steps.append({"op": "mark", "tag": "end:" + tag})
         plans.append((tag, cl))
+    # 3b'. rule documents whose names dangle (an assignment to an undefined identity / of an undefined role, a role listing an
+    #      undefined privilege), then requests that match the privileges involved
+    dangling = [
+        {"privileges": [{"name": "p", "path": "/dangle"}], "roles": [{"name": "r", "privileges": ["p", "ghostpriv"]}],
+         "identities": [{"name": "i", "userName": "nobody-at-all"}], "roleAssignments": [{"role": "r", "identities": ["ghost", "i"]}]},
+        {"privileges": [{"name": "p", "path": "/dangle"}], "roles": [{"name": "r", "privileges": ["p"]}],
+         "identities": [], "roleAssignments": [{"role": "r", "identities": ["ghost"]}, {"role": "ghostrole", "identities": ["ghost2"]}]},
+        {"privileges": [{"name": "p", "path": "/dangle", "queryParameters": {"k": "v"}}], "roles": [{"name": "r", "privileges": ["ghostpriv"]}],
+         "identities": [{"name": "i", "userName": "root"}], "roleAssignments": [{"role": "r", "identities": ["i"]}]},
+    ]
+    for di, rules in enumerate(dangling):
+        for mode in ("enforce", "audit"):
+            k += 1
+            tag = "dg%d" % k
+            steps.append({"op": "mark", "tag": "begin:" + tag})
+            steps.append({"op": "set_rules", "ep": "imds", "doc": {"defaultAccess": "deny", "mode": mode, "id": "dangle%d" % k, "rules": rules}})
+            steps.append({"op": "connect", "conn": tag, "attr": {"uid": 0, "admin": 1, "dip": "169.254.169.254", "dport": 80}})
+            steps.append({"op": "request", "conn": tag, "id": tag, "method": "GET", "target": "/dangle/x?k=v", "headers": [["Host", "h"]], "timeout_ms": 5000})
+            steps.append({"op": "close", "conn": tag})
+            steps.append({"op": "set_rules", "ep": "imds", "doc": None})
+            steps += probe(tag)
+            steps.append({"op": "mark", "tag": "end:" + tag})
+            plans.append((tag, "danglingRuleNames"))
     # 3c. host-reply classes seen by the agent's own clients
     utf16 = "<?xml version='1.0'?><GoalState/>".encode("utf-16-le")
     replies = [
